@@ -73,42 +73,56 @@ Proof.
   - apply wf_fixed64_field. unfold max_field. lia.
   - apply wf_bytes_field. unfold max_field. lia.
   - apply (wf_map_bytes 3 enc_kv). unfold max_field. lia.
+  - apply wf_varint_field. unfold max_field. lia.
 Qed.
 
 Lemma fold_event_attrs a st : fold_opt event_step (map (kv_elem_field 3) a) st = Some st.
 Proof. induction a as [|p a IH]; [reflexivity|]. cbn [map fold_opt kv_elem_field event_step N.eqb Pos.eqb]. exact IH. Qed.
 
+Lemma u32_of_small z : 0 <= z < 4294967296 -> u32_of (Z.to_N (to_u64 z)) = z.
+Proof.
+  intro H. unfold u32_of, to_u64, two64. rewrite Z.mod_small by lia. rewrite Z2N.id by lia. apply Z.mod_small. lia.
+Qed.
 Lemma dec_event_enc fuel e : event_ok e = true -> (String.length (enc_event e) < fuel)%nat ->
   dec_event fuel (enc_event e) = Some e.
 Proof.
   intros Hok Hfuel. unfold event_ok in Hok.
-  apply andb_true_iff in Hok. destruct Hok as [Hok Ha]. apply andb_true_iff in Hok. destruct Hok as [H0 H1].
+  apply andb_true_iff in Hok. destruct Hok as [Hok Ha]. apply andb_true_iff in Hok. destruct Hok as [Hok H3].
+  apply andb_true_iff in Hok. destruct Hok as [Hok H2]. apply andb_true_iff in Hok. destruct Hok as [H0 H1].
   rewrite forallb_forall in Ha.
   assert (Ht : 0 <= e_time e < two64) by lia.
+  assert (Hd : 0 <= e_dropped e < 4294967296) by lia.
   unfold dec_event, enc_event in *. rewrite (raw_fields_ser _ (wf_fields_event e)).
-  destruct e as [t nm at_]. cbn [e_time e_name e_attrs] in *. unfold fields_event in *. cbn [e_time e_name e_attrs] in *.
+  destruct e as [t nm at_ dr]. cbn [e_time e_name e_attrs e_dropped] in *. unfold fields_event in *. cbn [e_time e_name e_attrs e_dropped] in *.
   change (map (fun kv => (3%N, RBytes (enc_kv kv))) at_) with (map (kv_elem_field 3) at_) in *.
-  assert (E1 : fold_opt event_step (fixed64_field 1 t) event0 = Some {| e_time := t; e_name := ""; e_attrs := [] |}).
+  assert (E1 : fold_opt event_step (fixed64_field 1 t) event0 = Some {| e_time := t; e_name := ""; e_attrs := []; e_dropped := 0 |}).
   { unfold fixed64_field. destruct (Z.eqb_spec t 0) as [->|Hne]; [reflexivity|].
-    cbn [fold_opt event_step N.eqb Pos.eqb event0 e_time e_name e_attrs]. now rewrite (time_u64 t Ht). }
-  assert (E2 : fold_opt event_step (bytes_field 2 nm) {| e_time := t; e_name := ""; e_attrs := [] |}
-               = Some {| e_time := t; e_name := nm; e_attrs := [] |}).
+    cbn [fold_opt event_step N.eqb Pos.eqb event0 e_time e_name e_attrs e_dropped]. now rewrite (time_u64 t Ht). }
+  assert (E2 : fold_opt event_step (bytes_field 2 nm) {| e_time := t; e_name := ""; e_attrs := []; e_dropped := 0 |}
+               = Some {| e_time := t; e_name := nm; e_attrs := []; e_dropped := 0 |}).
   { unfold bytes_field. destruct (String.eqb_spec nm "") as [->|Hne]; reflexivity. }
-  rewrite fold_opt_app, E1, fold_opt_app, E2, fold_event_attrs.
+  assert (E3 : fold_opt event_step (varint_field 4 dr) {| e_time := t; e_name := nm; e_attrs := []; e_dropped := 0 |}
+               = Some {| e_time := t; e_name := nm; e_attrs := []; e_dropped := dr |}).
+  { unfold varint_field. destruct (Z.eqb_spec dr 0) as [->|Hne]; [reflexivity|].
+    cbn [fold_opt event_step N.eqb Pos.eqb e_time e_name e_attrs e_dropped]. now rewrite (u32_of_small dr Hd). }
+  rewrite fold_opt_app, E1, fold_opt_app, E2, fold_opt_app, fold_event_attrs, E3.
   assert (K1 : forall rec, dec_kvs rec 3 (fixed64_field 1 t) = Some []).
   { intro rec. unfold fixed64_field. destruct (t =? 0); reflexivity. }
   assert (K2 : forall rec, dec_kvs rec 3 (bytes_field 2 nm) = Some []).
   { intro rec. unfold bytes_field. destruct (String.eqb nm ""); reflexivity. }
-  rewrite dec_kvs_app, K1, dec_kvs_app, K2, dec_kvs_map.
-  - reflexivity.
+  assert (K3 : forall rec, dec_kvs rec 3 (varint_field 4 dr) = Some []).
+  { intro rec. unfold varint_field. destruct (dr =? 0); reflexivity. }
+  rewrite dec_kvs_app, K1, dec_kvs_app, K2, dec_kvs_app, K3, dec_kvs_map.
+  - cbn [app e_time e_name e_attrs e_dropped]. rewrite app_nil_r. reflexivity.
   - intros p Hp. apply dec_kv_enc. intros Hnil.
     rewrite dec_any_enc; [now rewrite merge_empty| |apply Ha; exact Hp].
-    assert (Hin : In (kv_elem_field 3 p) (fixed64_field 1 t ++ bytes_field 2 nm ++ map (kv_elem_field 3) at_)).
-    { apply in_or_app. right. apply in_or_app. right. apply in_map. exact Hp. }
+    assert (Hin : In (kv_elem_field 3 p) (fixed64_field 1 t ++ bytes_field 2 nm ++ map (kv_elem_field 3) at_ ++ varint_field 4 dr)).
+    { apply in_or_app. right. apply in_or_app. right. apply in_or_app. left. apply in_map. exact Hp. }
     pose proof (bytes_in_len _ _ _ Hin) as B1.
     assert (Hin2 : In (2%N, RBytes (enc_any (snd p))) (fields_kv p)).
     { unfold fields_kv, kv_fields. rewrite Hnil. apply in_or_app. right. left. reflexivity. }
-    pose proof (bytes_in_len _ _ _ Hin2) as B3. unfold enc_kv in B1. lia.
+    pose proof (bytes_in_len _ _ _ Hin2) as B3. unfold enc_kv in B1.
+    eapply Nat.le_lt_trans; [|exact Hfuel]. eapply Nat.le_trans; [|exact B1]. lia.
 Qed.
 
 Definition not11 (f : field) : Prop := fst f <> 11%N.
@@ -227,8 +241,8 @@ Lemma enc_spanx_no_extra s : enc_spanx s no_extra = enc_span s.
 Proof. unfold enc_spanx, enc_span, fields_extra, no_extra. cbn [x_events x_status map app]. rewrite app_nil_r. reflexivity. Qed.
 
 Definition wirex_ex : ospan * oextra :=
-  (wire_ex1, {| x_events := [{| e_time := 1727700000000000500; e_name := "exception"; e_attrs := [("exception.type", AStr "E"); ("n", AInt 3)] |};
-                             {| e_time := 0; e_name := ""; e_attrs := [] |}];
+  (wire_ex1, {| x_events := [{| e_time := 1727700000000000500; e_name := "exception"; e_attrs := [("exception.type", AStr "E"); ("n", AInt 3)]; e_dropped := 2 |};
+                             {| e_time := 0; e_name := ""; e_attrs := []; e_dropped := 0 |}];
                 x_status := Some {| s_msg := "boom"; s_code := 2 |} |}).
 Example wirex_ex_roundtrip :
   span_wire_ok (fst wirex_ex) = true /\ extra_ok (snd wirex_ex) = true /\
